@@ -5,6 +5,8 @@ set -e
 PATCH=$(readlink -f "$1"); PID=$2; TIER=${3:-quick}
 S=/tmp/vmut
 mkdir -p $S
+# one mutation run at a time: the scratch tree and lean/Generated are shared
+exec 9>/tmp/vmut.lock; flock 9
 if [ ! -d $S/repo/.git ] && [ ! -f $S/repo/.git ]; then git -C /repo worktree add --detach $S/repo HEAD >/dev/null 2>&1; fi
 git -C $S/repo reset -q --hard
 git -C $S/repo checkout -q --detach $(git -C /repo rev-parse HEAD)
